@@ -155,7 +155,9 @@ def check_group(w, rep, name, G, tier):
                 verdict(rep, "C01.neutral", "%s %s=X" % (name, side), w.param(Q), xp, quats, W("product"),
                         "identity is not neutral (%s)" % side, unknown_ok=(kind in ("euler",)))
     # ---- associativity (consequence; checked directly where canonical forms decide it)
-    if ok_pr:
+    if ok_pr and kind == "mrp" and tier != "thorough":
+        rep.na("C01.assoc", "%s (XY)Z=X(YZ)" % name, "rational identity of degree > 12 in 9 variables: attempted in the thorough tier only")
+    elif ok_pr:
         oka, A1 = guarded(w, rep, "C01.assoc", "%s (XY)Z" % name, lambda: w.call(G, "product", w.call(G, "product", X, Y), Z))
         okb, A2 = guarded(w, rep, "C01.assoc", "%s X(YZ)" % name, lambda: w.call(G, "product", X, w.call(G, "product", Y, Z)))
         if oka and okb:
